@@ -458,7 +458,12 @@ TRet ==
                 /\ viol' = Report((IF ok THEN NewHandleTags(r.v.h) ELSE {}) \cup StateChecks(op, e.obs, e.fateq)
                                   \cup (IF disk # pre THEN {<<"C07", "Refused", "open_dir wrote">>} ELSE {}))
            ELSE /\ UNCHANGED apiVars
-                /\ viol' = Report({<<ResProp(op, refs, r), "Result", op \o ":" \o r.k \o ":" \o r.e>>})
+                \* (whatever else is wrong with the call - a full table, say - a name that is not a directory's never opens as one)
+                /\ viol' = Report({<<ResProp(op, refs, r), "Result", op \o ":" \o r.k \o ":" \o r.e>>}
+                                  \cup (IF ok /\ HasH(odirs, a.d) /\ a.nmok /\ a.nm # DotN
+                                           /\ LET rr == RecOf(odirs, a.d)  i == EntIdx(rr.vol, rr.id, a.nm)
+                                              IN i # 0 /\ dirs[rr.vol][rr.id][i].k # "dir"
+                                        THEN {<<"C07", "Typing", op \o " opened a file (or the label) as a directory">>} ELSE {}))
         /\ dur' = dur /\ minfo' = minfo
      \/ /\ op = "close_dir"
         /\ LET refs == CloseDirRefs(a.d) IN
